@@ -2501,6 +2501,7 @@ static ASTNode *parse_expression(Stage1Parser *p) {
      * operator (so `1 + p.x` is `1 + (p.x)`, not `(1 + p).x`).
      */
     ASTNode **operand = &expr;
+    int infix_ops = 0;
     for (;;) {
         /* Handle field access or union construction:
          * - obj.field -> field access
@@ -2520,6 +2521,14 @@ static ASTNode *parse_expression(Stage1Parser *p) {
                 TokenType op = cur->token_type;
                 int op_line = cur->line;
                 int op_col = cur->column;
+                /* Every operator nests the expression one level deeper (a left-deep tree that the later
+                 * passes walk recursively): same bound as for other nesting */
+                if (++infix_ops > MAX_RECURSION_DEPTH) {
+                    parser_error(p, op_line, op_col, "Error at line %d, column %d: More than %d infix operators in one expression.\n",
+                            op_line, op_col, MAX_RECURSION_DEPTH);
+                    p->recursion_depth--;
+                    return expr;
+                }
                 advance(p);  /* consume operator */
 
                 ASTNode *right = parse_primary(p);
